@@ -322,6 +322,14 @@ class Exchange:
         if isinstance(e, ast.BoolOp):
             return (type(e.op).__name__.lower(),
                     tuple(sorted((self.canon(v) for v in e.values), key=repr)))
+        if isinstance(e, ast.BinOp) and isinstance(e.op, (ast.BitOr, ast.BitAnd)):
+            # element-wise or/and of masks: commutative and associative
+            tag = type(e.op).__name__
+            parts = []
+            for x in (e.left, e.right):
+                c = self.canon(x)
+                parts.extend(c[2] if c[0] == "bitop" and c[1] == tag else [c])
+            return ("bitop", tag, tuple(sorted(parts, key=repr)))
         if arith and isinstance(e, (ast.BinOp, ast.UnaryOp)):
             p = self.poly(e)
             if p is not None:
@@ -509,7 +517,10 @@ class Exchange:
                     if b in self.sw and self.sw[b] != a:
                         continue
                     self.sw[a], self.sw[b] = b, a
-                    if self._matrixish(v) and self._matrix_valued(v):
+                    if self._matrixish(v) and (self._matrix_valued(v) or
+                                               self._axis_reduction(v)):
+                        # pair matrices, and vectors obtained by reducing one of
+                        # their axes (their broadcasting subscripts swap as well)
                         self.matrix_locals = set(self.matrix_locals) | {a, b}
                     done.add(k)
                     self.pairs.append((a, b, st.lineno))
@@ -558,6 +569,11 @@ class Exchange:
         return isinstance(v, ast.BinOp) and isinstance(v.op, (ast.Add, ast.Sub)) and \
             isinstance(v.left, ast.Name) and v.left.id == a and \
             isinstance(v.right, ast.Name) and v.right.id in params
+
+    def _axis_reduction(self, v) -> bool:
+        """np.any / np.sum / ... of a pair matrix along one axis."""
+        return isinstance(v, ast.Call) and any(k.arg == "axis" for k in v.keywords) \
+            and self._matrixish(v)
 
     def _matrix_valued(self, v) -> bool:
         """The value is itself a pair matrix (not reduced by any/sum/count)."""
